@@ -49,7 +49,11 @@ Definition agree (c : case) : bool :=
   zip_all (fun (p : bool * result) (o : obs) =>
              Bool.eqb (fst p) (o_fin o) && (c_stress c || negb (fst p) || res_match (snd p) (o_res o)))
           pred (c_obs c)
-  && Bool.eqb lf (c_lock_free c).
+  && Bool.eqb lf (c_lock_free c)
+  (* and no request returned before the command after which the interpreter can have it returned *)
+  && (c_stress c ||
+      zip_all (fun (d : nat) (o : obs) => negb (o_fin o) || (d =? 0)%nat || (d <=? o_done_at o)%nat)
+              (predict_done_at (c_url c) (c_init c) (c_cmds c)) (c_obs c)).
 
 (* ------------------------------------------------------------------------------------------- *)
 (* The property on the OBSERVED outputs alone (the interpreter is not consulted).               *)
